@@ -252,13 +252,25 @@ pub fn eval(cat: &Catalog, case: &Case) -> Evaluated {
                     }
                 }
             }
-            let finding = if got == Some(want) {
-                None
-            } else {
+            let finding = if got != Some(want) {
                 Some(Finding {
                     class: "index".into(),
                     detail: format!("encoded enum starts with {} instead of version 0 and constructor rank {want}", hex(&b[..b.len().min(6)])),
                 })
+            } else {
+                // ... followed by that constructor's own record and nothing else: the format's
+                // decoder for this very declaration accepts the bytes and uses all of them
+                match ref_decode(&cat.reg, &e.ty, b) {
+                    Ok(d) if d.consumed == b.len() => None,
+                    Ok(d) => Some(Finding {
+                        class: "index".into(),
+                        detail: format!("the constructor's record ends after {} of the {} bytes written", d.consumed, b.len()),
+                    }),
+                    Err(w) => Some(Finding {
+                        class: "index".into(),
+                        detail: format!("what follows the index is not the constructor's record: {w:?} ({})", hex(&b[..b.len().min(12)])),
+                    }),
+                }
             };
             Evaluated { finding, outcome: "ok", meter: Meter::default() }
         }
